@@ -108,6 +108,15 @@ def run(repo, chk):
             wrong = [n for n in walk(lp) if isinstance(n, ast.If) and closed_test_polarity(n.test) == 1 and any(isinstance(s, ast.Assign) and const(s.value) == 1 for s in n.body)]
             if len(zero) >= 2 and len(ones) >= 2 and not wrong and min(z.lineno for z in zero) < min(o.lineno for o in ones):
                 ok = True
+            # equivalent idiom: entry = int(any(link.status != Closed for link in links)) / not all(link.status == Closed ...)
+            for c in [x for x in walk(lp) if isinstance(x, ast.Call) and isinstance(x.func, ast.Name) and x.func.id in ("any", "all") and x.args
+                      and isinstance(x.args[0], (ast.GeneratorExp, ast.ListComp))]:
+                pol_ = closed_test_polarity(c.args[0].elt)
+                negated = isinstance(parent(c), ast.UnaryOp) and isinstance(parent(c).op, ast.Not)
+                if (c.func.id == "any" and pol_ == -1 and not negated) or (c.func.id == "all" and pol_ == 1 and negated):
+                    stores_ = [s for s in walk(lp) if isinstance(s, ast.Assign) and (unparse(s.targets[0]).startswith("data[") or "_internal_graph" in unparse(s.targets[0]))]
+                    if len(stores_) >= 2:
+                        ok = True
             found = "zero stores %d, one-if-not-closed stores %d, one-if-closed %d" % (len(zero), len(ones), len(wrong))
         chk.expect(ok, "R-C09-1", "%s: a node pair joined by several links is connected iff any of them is not Closed (entry reset to 0, then set to 1)" % label, loc(fn),
                    "parallel links share one graph entry", found=found)
